@@ -385,6 +385,36 @@ def cases(which):
         add("compute_batch_gradients[complex wavefunction, no bases]", P_BIN + P_PH + DATA, bg_call("complex"), bg_spec("complex"))
         add("compute_batch_gradients[density matrix, no bases]", P_PUR + P_PURPH + DATA, bg_call("mixed"), bg_spec("mixed"))
 
+    if which in ("statistics", "all"):
+        # ---- one-pass statistics of a batch of observable values (C13), every batch length --------------------------------
+        N2 = G.dim("N")
+
+        def stats_call(samples):
+            from qucumber.observables.observable import ObservableBase
+
+            class RowValue(ObservableBase):
+                def apply(self, nn_state, s):      # the observable's value for a row is that row's single entry
+                    return s[:, 0]
+            o = RowValue()
+            if _is_g(samples):
+                from qv import astvc
+                f = astvc.load(ObservableBase.statistics_from_samples, None, astvc.VC.cur(), None, cls=ObservableBase,
+                               name="ObservableBase.statistics_from_samples")[0]
+                r = f(o, None, samples)
+            else:
+                r = o.statistics_from_samples(None, samples)
+            return (r["mean"], r["variance"], r["std_error"], r["num_samples"])
+
+        def stats_spec(samples):
+            n = G.to_E(G.size_obj(N2))
+            s1 = G.sum_over(N2, lambda t: samples(t, 0))
+            s2 = G.sum_over(N2, lambda t: samples(t, 0) * samples(t, 0))
+            var = (s2 - s1 * s1 * G.fn("inv", n)) * G.fn("inv", n - 1)
+            return (G.build((), lambda: s1 * G.fn("inv", n)), G.build((), lambda: var),
+                    G.build((), lambda: G.fn("sqrt", var * G.fn("inv", n))), G.build((), lambda: n))
+        add("statistics_from_samples == one-pass mean, sample variance, standard error and count of the batch", [("samples", (N2, 1), "real")],
+            stats_call, stats_spec)
+
     if which in ("observables", "all"):
         # ---- diagonal observables (C08): SigmaZ for every chain length and batch size -------------------------------------
         from qucumber.observables import SigmaZ
